@@ -13,7 +13,7 @@ from . import ops
 from .ops import exc, is_number
 from .values import (
     Ref, ListE, NdE, Builtin, BuiltinClass, Exc, Opaque, SliceVal, Unsupported, is_z3, z3val, as_arith,
-    is_intlike, is_reallike, coerce_pair,
+    is_intlike, is_reallike, is_boollike, coerce_pair,
 )
 
 
@@ -959,6 +959,60 @@ def make_module(I):
 
     reg("isnan", _isnan)
     reg("isfinite", lambda I, st, v: True)
+
+    def _interp(I, st, x, xp, fp, left=None, right=None, period=None):
+        """np.interp(x, xp, fp) for a SCALAR x (concrete or symbolic real) over a CONCRETE non-decreasing table xp and a
+        table fp of numbers of the same length: over the reals (A1) the clamped piecewise-linear interpolant numpy
+        computes - fp[0] below xp[0], fp[-1] at / above xp[-1], and fp[j] + (fp[j+1]-fp[j])/(xp[j+1]-xp[j]) * (x - xp[j])
+        on xp[j] <= x < xp[j+1] (numpy's binary search picks the LAST j with xp[j] <= x, so a repeated abscissa is a
+        jump, never a division by zero).  One merged If-term, no path fork."""
+        if left is not None or right is not None or period is not None:
+            raise Unsupported("np.interp with left / right / period")
+        if isinstance(x, Ref) or isinstance(x, tuple):
+            raise Unsupported("np.interp of an array of abscissae")
+        if not is_number(x):
+            raise Unsupported("np.interp of %r" % (x,))
+        xs, ys = list(asnd(I, st, xp)[1]), list(asnd(I, st, fp)[1])
+        if len(asnd(I, st, xp)[0]) != 1 or len(asnd(I, st, fp)[0]) != 1:
+            raise Unsupported("np.interp over tables that are not 1-d")
+        if not xs:
+            return exc("ValueError", "array of sample points is empty")
+        if len(xs) != len(ys):
+            return exc("ValueError", "fp and xp are not of the same length.")
+        if any(is_z3(v) or isinstance(v, bool) or not isinstance(v, (int, Fraction)) for v in xs):
+            raise Unsupported("np.interp over a symbolic / non-numeric table of abscissae")
+        if not all(is_number(v) and not is_boollike(v) for v in ys):
+            raise Unsupported("np.interp over non-numeric ordinates")
+        if any(xs[j] > xs[j + 1] for j in range(len(xs) - 1)):
+            raise Unsupported("np.interp over a table of abscissae that is not non-decreasing (numpy: result undefined)")
+        xs = [Fraction(v) for v in xs]
+        ys = [tofloat(v) for v in ys]
+        x = as_arith(x)
+        n = len(xs)
+
+        def seg(j, xv):
+            slope = scalar_op(I, st, "Div", scalar_op(I, st, "Sub", ys[j + 1], ys[j]), xs[j + 1] - xs[j])
+            return scalar_op(I, st, "Add", scalar_op(I, st, "Mult", slope, scalar_op(I, st, "Sub", xv, xs[j])), ys[j])
+
+        if not is_z3(x):
+            xv = Fraction(x)
+            if xv < xs[0]:
+                return ys[0]
+            if xv >= xs[-1]:
+                return ys[-1]
+            j = max(i for i in range(n) if xs[i] <= xv)
+            return seg(j, xv)
+        zx = z3.ToReal(x) if z3.is_int(x) else x
+        # nested from the top: x >= xp[n-1] -> fp[n-1]; else the last j with xp[j] <= x; else (x < xp[0]) fp[0]
+        r = z3val(ys[0])
+        for j in range(n - 1):
+            if xs[j] == xs[j + 1]:
+                continue  # empty interval [xp[j], xp[j+1])
+            r = z3.If(zx >= z3val(xs[j]), z3val(seg(j, zx)), r)
+        r = z3.If(zx >= z3val(xs[-1]), z3val(ys[-1]), r)
+        return r
+
+    reg("interp", _interp)
     return N
 
 
